@@ -475,6 +475,9 @@ class UnitCalculator(object):
         elif expr.is_Derivative:
             # In a derivative expression the first argument is function to be differentiated
             # the second argument is a tuple of which the first is symbol of the differentiator(?)
+            if len(expr.args) > 2 or expr.args[1][1] > 1:
+                # (as in convert_expression_recursively) the quotient below is the unit of a first order derivative only
+                raise UnexpectedMathUnitsError(str(expr))
             quantity_per_arg.append(self.traverse(expr.args[0]))
             quantity_per_arg.append(self.traverse(expr.args[1][0]))
         else:
